@@ -787,9 +787,10 @@ fn c04(tier: Tier, seed: u64) -> i32 {
     let mut ctx = Ctx::new("C04", tier, seed);
     let n = ctx.n(24, 600);
     let quick = tier == Tier::Quick;
-    ctx.run_batch("cells", "cell = NUTS preset (Diag / LowRank; Flow with the stub flow) x kinetic energy (Euclidean / ExactNormal) x step-size method (dual averaging / Adam), otherwise DEFAULT settings, x target with known moments (isotropic, badly scaled up to 1e6, correlated Gaussians; Student-t with integer df; skewed log-gamma), dimension 2..20 (thorough: ..100); 32 independently seeded chains per cell, default warmup, 4000 post-warmup draws each; per coordinate the mean, variance and 5/25/50/75/95% quantile coverage averaged over chains are compared with the truth (exact for Gaussians, 2e6 i.i.d. reference draws otherwise) by a t statistic with the BETWEEN-CHAIN standard error at a two-sided level of 1e-7; no post-warmup divergence on Gaussians; the trajectory-start momentum seen at the SimMath seam: KS distance to N(0,1), lag-1 autocorrelation, correlation with the previous draw", n, |rs, i| {
+    ctx.run_batch("cells", "cell = NUTS preset (Diag / LowRank) x kinetic energy (Euclidean / ExactNormal) x step-size method (dual averaging / Adam), otherwise DEFAULT settings, x target with known moments (isotropic, badly scaled up to 1e6, correlated Gaussians; Student-t with integer df; skewed log-gamma), dimension 2..20 (thorough: ..100); 32 independently seeded chains per cell, default warmup, 4000 post-warmup draws each; per coordinate the mean, variance and 5/25/50/75/95% quantile coverage averaged over chains are compared with the truth (exact for Gaussians, 2e6 i.i.d. reference draws otherwise) by a t statistic with the BETWEEN-CHAIN standard error at a two-sided level of 1e-7; no post-warmup divergence on Gaussians; the trajectory-start momentum seen at the SimMath seam: KS distance to N(0,1), lag-1 autocorrelation, correlation with the previous draw", n, |rs, i| {
         let mut r = Prng::sub(rs, "cell");
-        let kind = match i % 6 { 0 | 1 | 2 => crate::swarm::PresetKind::DiagNuts, 3 | 4 => crate::swarm::PresetKind::LowRankNuts, _ => crate::swarm::PresetKind::FlowNuts };
+        // (the Flow preset is not part of C04's statement: its quality is that of the user's flow)
+        let kind = match i % 6 { 0 | 1 | 2 => crate::swarm::PresetKind::DiagNuts, _ => crate::swarm::PresetKind::LowRankNuts };
         let o = SwarmOpts { randomise_knobs: false, ..Default::default() };
         let d = if quick { r.usize_in(2, 12) } else { *r.pick(&[2usize, 5, 10, 20, 50, 100]) };
         let draws = if quick { 4000 } else { 6000 };
